@@ -1,6 +1,7 @@
 package props
 
 import (
+	"bytes"
 	"fmt"
 	"io"
 
@@ -171,6 +172,68 @@ var c03Hostile = map[string][]string{
 	},
 }
 
+// hostileHeaders builds the matrix of container/string headers whose announced
+// length is not backed by data: every container form x element type x length
+// marker/width x boundary lengths (0, 1, marker maxima, 2^31, 2^40, 2^59..2^63-1:
+// the values at which length*size computations wrap), each bare and followed by
+// 16 payload bytes.
+func hostileHeaders(format string) [][]byte {
+	var out [][]byte
+	add := func(h []byte) {
+		out = append(out, h, append(append([]byte{}, h...), bytes.Repeat([]byte{0x01}, 16)...))
+	}
+	be := func(v uint64, n int) []byte {
+		b := make([]byte, n)
+		for i := n - 1; i >= 0; i-- {
+			b[i] = byte(v)
+			v >>= 8
+		}
+		return b
+	}
+	counts := []uint64{0, 1, 2, 127, 128, 255, 256, 32767, 65535, 1 << 31, 1<<31 - 1, 1<<32 - 1, 1 << 40, 1 << 59, 1 << 60, 1<<60 + 1, 1 << 61, 1<<61 + 2, 1 << 62, 1<<63 - 1, 1 << 63, 1<<64 - 1}
+	switch format {
+	case "ubjson":
+		markers := []struct {
+			m    byte
+			n    int
+			max  uint64
+			sign bool
+		}{{'i', 1, 127, true}, {'U', 1, 255, false}, {'I', 2, 32767, true}, {'l', 4, 1<<31 - 1, true}, {'L', 8, 1<<63 - 1, true}}
+		for _, mk := range markers {
+			for _, c := range counts {
+				if c > mk.max && !(mk.sign && c == mk.max+1) && c != 1<<64-1 {
+					continue // (max+1 and all-ones are the negative lengths of signed markers)
+				}
+				l := append([]byte{mk.m}, be(c, mk.n)...)
+				add(append([]byte("[#"), l...))
+				add(append([]byte("{#"), l...))
+				add(append([]byte("S"), l...))
+				add(append([]byte("H"), l...))
+				for _, t := range []byte("iUIlLdDCSHZTF[{N") {
+					add(append([]byte{'[', '$', t, '#'}, l...))
+					add(append([]byte{'{', '$', t, '#'}, l...))
+				}
+			}
+		}
+	case "cborl":
+		for _, major := range []byte{2, 3, 4, 5} {
+			for _, c := range counts {
+				for _, w := range []struct {
+					code byte
+					n    int
+					max  uint64
+				}{{24, 1, 255}, {25, 2, 65535}, {26, 4, 1<<32 - 1}, {27, 8, 1<<64 - 1}} {
+					if c > w.max {
+						continue
+					}
+					add(append([]byte{major<<5 | w.code}, be(c, w.n)...))
+				}
+			}
+		}
+	}
+	return out
+}
+
 func drawC03(t *rapid.T) any {
 	c := &C03Case{Format: rapid.SampledFrom(formatNames).Draw(t, "format")}
 	c.Entry = rapid.SampledFrom(c03Entries).Draw(t, "entry")
@@ -183,6 +246,9 @@ func drawC03(t *rapid.T) any {
 	case w < 6:
 		c.Kind = "hostile"
 		c.Data = []byte(rapid.SampledFrom(c03Hostile[c.Format]).Draw(t, "hostile"))
+		if hh := hostileHeaders(c.Format); len(hh) > 0 && rapid.Bool().Draw(t, "hostile_matrix") {
+			c.Data = append([]byte{}, hh[rapid.IntRange(0, len(hh)-1).Draw(t, "hostile_h")]...)
+		}
 		if rapid.Bool().Draw(t, "hostile_tail") {
 			c.Data = append(c.Data, rapid.SliceOfN(rapid.Byte(), 0, 12).Draw(t, "tail")...)
 		}
